@@ -962,11 +962,11 @@ def native_method(I, recv, name, args, kw):
         s = to_seq(recv)
         if s.kind == 'list':
             if name == 'append':
-                new = V.seq_concat(s, Seq('list', None, items=[args[0]], elem='bool' if isinstance(args[0], (bool, SBool)) and (s.elem == 'bool' or (s.items is not None and not s.items)) else s.elem))
+                new = V.seq_concat(s.copy(), Seq('list', None, items=[args[0]], elem='bool' if isinstance(args[0], (bool, SBool)) and (s.elem == 'bool' or (s.items is not None and not s.items)) else s.elem))
                 s.items, s.n, s._at, s.elem = new.items, new.n, new._at, new.elem
                 return None
             if name == 'extend':
-                new = V.seq_concat(s, to_seq(args[0]) if not isinstance(args[0], it.IterV) else to_seq(args[0].items))
+                new = V.seq_concat(s.copy(), to_seq(args[0]) if not isinstance(args[0], it.IterV) else to_seq(args[0].items))
                 s.items, s.n, s._at, s.elem = new.items, new.n, new._at, new.elem
                 return None
             if name == '__iter__': return s
@@ -975,9 +975,9 @@ def native_method(I, recv, name, args, kw):
                 n = zint(s.n) if not isinstance(s.n, int) else z3.IntVal(s.n)
                 if not st.decide(n > 0): raise Raised('IndexError')
                 if idx == -1:
-                    v = s.at(mk(n - 1)); new = V.seq_slice(s, 0, mk(n - 1))
+                    v = s.at(mk(n - 1)); new = V.seq_slice(s.copy(), 0, mk(n - 1))
                 elif idx == 0:
-                    v = s.at(0); new = V.seq_slice(s, 1, None)
+                    v = s.at(0); new = V.seq_slice(s.copy(), 1, None)
                 else: raise Unsupported('pop at index')
                 s.items, s.n, s._at = new.items, new.n, new._at
                 return v
@@ -1168,7 +1168,7 @@ def opaque_method(I, recv, name, args, kw):
     if h is not None:
         return h(I, recv, args, kw)
     if recv.what == 'str':
-        return Opaque('str')
+        return Opaque('str')          # any str method on an unknown string yields an unknown string (or list of them)
     raise Unsupported('method %s of opaque %s' % (name, recv.what))
 
 
